@@ -211,7 +211,7 @@ def check_case(case, ctx):
     try:
         if case["backend"] == "sqlite":
             d = tempfile.mkdtemp(prefix="lmmv_c11_", dir=_tmp())
-            m = base.mk_sqlite(case["graph"], d, latlon=ref.latlon)
+            m = base.mk_sqlite(case["graph"], d, latlon=ref.latlon, plan=case.get("load_plan"))
         else:
             m = base.mk_inmem(case["graph"], latlon=ref.latlon)
         try:
@@ -222,6 +222,8 @@ def check_case(case, ctx):
     finally:
         if d is not None:
             shutil.rmtree(d, ignore_errors=True)
+    if case.get("load_plan"):
+        classes.append("sqlite-loaded-call-by-call")
     if long_edge:
         classes.append("long-edge-through-disc")
     if ref.exact_nodes:
@@ -296,6 +298,9 @@ def _case(draw, tier):
                     loc=[oy + unit * q[0], ox + unit * q[1]], radius=None if r is None else r * unit)
     else:
         case.update(metric="planar", graph=g, loc=[q[0], q[1]], radius=r)
+    if backend == "sqlite" and gen.chance(draw, 4):
+        # the SQLite map is loaded call by call (per-call flags, repeated nodes/edges, re-index calls) instead of in bulk
+        case["load_plan"] = draw(gen.load_plan(case["graph"]))
     return case
 
 
